@@ -19,7 +19,8 @@ theorem funrel_ok {f : Fun} {sf : Spec.SFun} (h : FunRel f sf) : FunOK f := by
     exact WF.bare ((emits body).bodyHoist _).1 ((emits body).bodyHoist _).2 (WS.seq ((emits body).stmts _) (WS.ret _))
 
 /-- the relation between the entries of `topDefs` and `Spec.topLevel` -/
-def TopRel (mod : Nat) (fn : Fun) (sf : Spec.SFun) : Prop := FunRel fn sf ∧ sf.mod = mod ∧ sf.kind = .def_
+def TopRel (mod : Nat) (x : Name) (fn : Fun) (sf : Spec.SFun) : Prop :=
+  FunRel fn sf ∧ sf.mod = mod ∧ sf.kind ≠ .body ∧ (sf.kind = .block → blockBase ≤ x)
 
 theorem optrel_append {α β} {R : α → β → Prop} (x : Name) {a b : List (Name × α)} {a' b' : List (Name × β)}
     (h1 : OptRel R (lookup x a) (lookup x a')) (h2 : OptRel R (lookup x b) (lookup x b')) :
@@ -30,7 +31,7 @@ theorem optrel_append {α β} {R : α → β → Prop} (x : Name) {a b : List (N
   · exact h1
 
 theorem topdefs_rel (mod : Nat) (f : Name) : ∀ (t : Tmpl) (sc : Scope) (il bf cv : Bool), sc.top = true →
-    Good sc il bf cv false t = true → OptRel (TopRel mod) (lookup f (topDefs t)) (lookup f (Spec.topLevel mod t)) := by
+    Good sc il bf cv false t = true → OptRel (TopRel mod f) (lookup f (topDefs t)) (lookup f (Spec.topLevel mod t)) := by
   intro t
   induction t with
   | seq a b iha ihb =>
@@ -66,12 +67,43 @@ theorem topdefs_rel (mod : Nat) (f : Name) : ∀ (t : Tmpl) (sc : Scope) (il bf 
     simp only [topDefs, topFun, hc, Bool.false_eq_true, if_false, Spec.topLevel, lookup]
     split
     · simp only [OptRel]
-      refine ⟨?_, rfl, rfl⟩
+      refine ⟨?_, rfl, by simp, by simp⟩
       have := FunRel.def_ (defScope b) ps fl b (refsLoop b) false mod .def_ (.inl ⟨rfl, rfl⟩) hc hnd hg
       simpa [renderCallable, defScope] using this
     · simp only [OptRel]
-  | block _ _ _ _ _ => intro sc il bf cv _ h; simp [Good] at h
+  | block name anon fl b _ =>
+    intro sc il bf cv ht h
+    simp only [Good, Bool.not_false, Bool.true_and, Bool.and_eq_true, Bool.not_eq_true', decide_eq_true_eq,
+      Bool.or_eq_true, ht] at h
+    obtain ⟨⟨⟨⟨hbn, hc⟩, hnd⟩, hlp⟩, hg⟩ := h
+    cases anon with
+    | true => simp [topDefs, Spec.topLevel, lookup, OptRel]
+    | false =>
+      simp only [Bool.not_false, Bool.and_true, if_true] at hg
+      have hrl : refsLoop b = false := by
+        rcases hlp with h1 | h1
+        · exact h1
+        · simp at h1
+      simp only [topDefs, topFun, hc, Bool.false_eq_true, if_false, Spec.topLevel, lookup]
+      split
+      · rename_i hfn
+        subst hfn
+        simp only [OptRel]
+        refine ⟨?_, rfl, by simp, fun _ => hbn⟩
+        have hdn : nodupB (declNames b) = true := by
+          have := (nodefs_facts b hnd).declared false 0
+          simp [declNames, this, nodupB]
+        have := FunRel.def_ (defScope b) [] fl b false false mod .block (.inr (.inr ⟨rfl, rfl, rfl⟩)) hc hdn hg
+        simpa [renderCallable, defScope, hrl] using this
+      · simp only [OptRel]
   | _ => intro _ _ _ _ _ _; simp [topDefs, Spec.topLevel, lookup, OptRel]
+
+/-- `render_body` of a guarded template, as module `mod` of the set -/
+theorem body_funrel (t : Tmpl) (mod : Nat) (hg : GoodTop t = true) :
+    FunRel ⟨[], ⟨refsLoop t, false, false⟩, codegen t⟩ ⟨[], noFlags, t, .main, mod⟩ := by
+  simp only [GoodTop, Bool.and_eq_true] at hg
+  have := FunRel.def_ (mainScope t) [] noFlags t (refsLoop t) false mod .main (.inr (.inl ⟨rfl, rfl, rfl⟩)) rfl hg.2 hg.1.1
+  simpa [codegen, renderCallable, mainScope, noFlags] using this
 
 variable (ts : List (Tmpl × Option Bool)) (k : Nat)
 
@@ -80,7 +112,8 @@ def GoodAll : Prop := ∀ p ∈ ts, GoodTop p.1 = true
 
 theorem resolve_rel (hG : GoodAll ts) {l : Loc} {E : Spec.Env} {f : Name} (hf : f ≠ 0)
     (hfuns : ClosRel l.funs E.defs) (hmod : l.mod = E.mod) :
-    OptRel CloRel (resolve (progOf ts k) l f) (Spec.resolveS ⟨ts, k⟩ E f) := by
+    OptRel (fun clo sf => CloRel clo sf ∧ (sf.kind = .block → blockBase ≤ f)) (resolve (progOf ts k) l f)
+      (Spec.resolveS ⟨ts, k⟩ E f) := by
   have h1 := hfuns f hf
   simp only [resolve, Spec.resolveS]
   cases ha : lookup f l.funs <;> cases hb : lookup f E.defs <;> simp only [ha, hb, OptRel] at h1 ⊢
@@ -93,10 +126,10 @@ theorem resolve_rel (hG : GoodAll ts) {l : Loc} {E : Spec.Env} {f : Name} (hf : 
       have hp : p ∈ ts := List.mem_of_getElem? hm
       have hgt := hG p hp
       simp only [GoodTop, Bool.and_eq_true] at hgt
-      have g := topdefs_rel E.mod f p.1 (mainScope p.1) false false true rfl hgt.1
+      have g := topdefs_rel E.mod f p.1 (mainScope p.1) false false true rfl hgt.1.1
       cases hc : lookup f (topDefs p.1) <;> cases hd : lookup f (Spec.topLevel E.mod p.1) <;>
         simp only [hc, hd, OptRel, Option.map_none, Option.map_some] at g ⊢
-      exact ⟨g.1, g.2.1.symm, by rw [g.2.2]; simp⟩
+      exact ⟨⟨g.1, g.2.1.symm, g.2.2.1⟩, g.2.2.2⟩
   · exact h1
 
 /-! ## carrying `RelC` along -/
@@ -156,6 +189,7 @@ def InvokeRef (n : Nat) : Prop := ∀ (clo : Clo) (sf : Spec.SFun) (lexS : Spec.
     FunRel clo.fn sf → clo.mod = sf.mod →
     (sf.kind = .body → NSRel clo.lex lexS ∧ σ.next = [] ∧
       ∃ restD, E.defs = ((0, sf) :: Spec.callDefsOf sf.mod sf.body) ++ restD) →
+    (sf.kind = .block → σ.next = [] ∧ ∃ base, σ.loops.map (·.index) = E.loops ++ base) →
     RelW l σ E → NSRel σ.next pend → LocOK l → NSOK clo.lex → StOK σ → σ.bufs = (i, top) :: rest →
     invoke (progOf ts k) n clo vs l σ = (r, σ') → r ≠ .timeout →
     ∃ out, σ'.bufs = (i, top ++ out) :: rest ∧ Post σ σ' ∧
@@ -194,7 +228,7 @@ theorem rc_zero : RC ts k 0 := by
     simp only [eval, Prod.mk.injEq] at he; exact absurd he.1.symm hr
   · intro es il ce cv l σ E pend i top rest r σ' _ _ _ _ _ _ _ _ he hr
     simp only [evalArgs, Prod.mk.injEq] at he; exact absurd he.1.symm hr
-  · intro clo sf lexS vs l σ E pend i top rest r σ' _ _ _ _ _ _ _ _ _ he hr
+  · intro clo sf lexS vs l σ E pend i top rest r σ' _ _ _ _ _ _ _ _ _ _ he hr
     simp only [invoke, Prod.mk.injEq] at he; exact absurd he.1.symm hr
   · intro t sc il bf cv cb l σ E i top rest o l' σ' _ _ _ _ _ _ _ _ he ho
     simp only [exec, Prod.mk.injEq] at he; exact absurd he.1.symm ho
